@@ -1,6 +1,6 @@
 (* Property C18 — symbolized callables keep Python call semantics.
    Only statements and [exact]; definitions are in Model/Binding.v, proofs in Proofs/Binding*.v. *)
-From PG Require Import Common.Tactics Model.Binding Proofs.BindingMaps Proofs.BindingProofs.
+From PG Require Import Common.Tactics Model.Binding Proofs.BindingMaps Proofs.BindingProofs Proofs.BindingSig Proofs.BindingReport.
 From Coq Require Import NArith.
 Local Open Scope N_scope.
 
@@ -35,3 +35,39 @@ Theorem C18_call_equiv_refuted : exists q s ctor lates c,
   functor_bind q s ctor false false lates c None None <> spec_outcome s ctor lates c false false.
 Proof. exact noop_rebind_refutes. Qed.
 Print Assumptions C18_call_equiv_refuted.
+
+(* What the functor reports after construction and later bindings describes the arguments supplied
+   so far: specified_args are exactly the supplied names, sym_init_args shows the supplied value, else
+   the default, else nothing; the *args attribute holds the variadic values; the flags are kept. *)
+Theorem C18_reported_args : forall q s ctor ov ie lates st0 st,
+  wf_sig s -> no_quirks q -> late_names_ok s lates ->
+  functor_ctor s ctor ov ie = Ok st0 -> late_all q s st0 lates = Ok st ->
+  exists e, bound_arguments s ctor lates = Ok e /\
+    (forall k, is_va s k = false -> smem k (spec st) = kmem k (enamed e)) /\
+    (has_va s = true -> smem (va_name s) (spec st) = match evar e with Some _ => true | None => false end) /\
+    (forall k, kget k (attrs st) = match kget k (enamed e) with Some v => Some v | None => default_of s k end) /\
+    vattr st = match evar e with Some l => l | None => [] end /\
+    f_ov st = ov /\ f_ie st = ie.
+Proof. exact functor_reports_effective_arguments. Qed.
+Print Assumptions C18_reported_args.
+
+(* The __init__ generated from the schema (to_schema, from_schema, make_function) has the signature
+   of the original function, for every signature the language accepts. *)
+Theorem C18_signature : forall s, wf_sig s -> no_gap (pos s) false = true -> generated_init_sig s = s.
+Proof. exact generated_init_signature_is_original. Qed.
+Print Assumptions C18_signature.
+
+(* A clone and a JSON round trip answer every later call as the original does, and report the same
+   arguments (the two flags are constructor options and are not part of the JSON form: they are
+   given explicitly at the call here). *)
+Theorem C18_clone_json : forall q s ctor ov ie lates st0 st c o i,
+  wf_sig s -> no_quirks q -> late_names_ok s lates -> call_ok s c ->
+  functor_ctor s ctor ov ie = Ok st0 -> late_all q s st0 lates = Ok st ->
+  functor_call s (clone_state st) c (Some o) (Some i) = functor_call s st c (Some o) (Some i) /\
+  functor_call s (json_state s st) c (Some o) (Some i) = functor_call s st c (Some o) (Some i) /\
+  (forall k, kget k (attrs (json_state s st)) = kget k (attrs st)) /\
+  vattr (json_state s st) = vattr st /\
+  (forall k, is_va s k = false -> smem k (spec (json_state s st)) = smem k (spec st)) /\
+  (has_va s = true -> smem (va_name s) (spec (json_state s st)) = smem (va_name s) (spec st)).
+Proof. exact clone_and_json_keep_effective_arguments. Qed.
+Print Assumptions C18_clone_json.
